@@ -26,6 +26,9 @@ var families = map[string]*family{}
 // sub-generators selectable as "family:sub"
 var subGens = map[string]func(r *rand.Rand, n int) []string{}
 
+// non-nil while a `seq` line is executed: key objects by their token string
+var sharedKeys map[string]any
+
 func register(f *family) { families[f.name] = f }
 
 // which families serve which property
@@ -45,6 +48,16 @@ func execLine(line string) (ans string) {
 	toks := strings.Fields(line)
 	if len(toks) == 0 {
 		return ""
+	}
+	if toks[0] == "seq" {
+		// seq <op A> ;; <op B> …: run the operations in order on shared key objects (identical key tokens denote
+		// the same key.Key map), answer the last one
+		sharedKeys = map[string]any{}
+		defer func() { sharedKeys = nil }()
+		for _, part := range strings.Split(strings.Join(toks[1:], " "), " ;; ") {
+			ans = execLine(part)
+		}
+		return ans
 	}
 	fam := toks[0]
 	if i := strings.IndexByte(fam, '.'); i >= 0 {
